@@ -20,6 +20,7 @@ def run(chk):
     clones.rule_threshold_tests(chk, 'N3', floor=20)
     clones.rule_defuse(chk, 'D1', 'D2', ('aead',), floor=50)
     clones.rule_tables(chk, 'N5', ('aead',), floor=20)
+    clones.rule_unreachable(chk, 'U1', ('aead',), floor=20, also=r'chacha20|poly')
     from . import twins
     twins.rule_token_agreement(chk, cf.PROGRAM[0] or cf.Program(), 'K1', floor=150)
     from . import aead
